@@ -9,7 +9,7 @@ RULE = ('Hypothesis draws a bundle as plain field values (flags subsets, dtn:/ip
         'fragment fields, 0-3 extension blocks of known and unknown type, status-report payloads; integers biased to '
         'CBOR head-width boundaries) and a direction: (ref) bytes from the independent RFC 9171 encoder -> repo decode '
         '-> compare fields -> re-encode must equal the bytes; (repo) repo objects built field-by-field (BTSD octets or '
-        'payload objects) -> agent finalisation -> independent decoder must accept the structure and return the '
+        'payload objects; times as integers, datetime objects or ISO 8601 text) -> agent finalisation -> independent decoder must accept the structure and return the '
         'generated values, repo must decode its own bytes to the same fields and re-encode identically. '
         'Non-trivial = at least one extension block and at least one integer field on a CBOR head-width boundary '
         '(>= 23); distinct by SHA-1 of the canonical case.')
@@ -36,6 +36,8 @@ def strategy(tier):
     return st.fixed_dictionaries({
         'bundle': st.one_of(strat.bundles(), strat.bundles(extended_eid=True, max_ext=1)),
         'mode': st.sampled_from(['ref', 'repo', 'repo-obj']),
+        # how times are given to the encoding classes in the repo modes (DtnTimeField converts datetime objects and text)
+        'timeform': st.sampled_from(['int', 'datetime', 'text']),
     })
 
 
@@ -119,7 +121,8 @@ def execute(case):
 
     # repo object -> bytes
     try:
-        obj = bpconv.to_repo(bundle, objform=(mode == 'repo-obj'))
+        obj = bpconv.to_repo(bundle, objform=(mode == 'repo-obj'), timeform=case.get('timeform'))
+        out.label('timeform:%s' % case.get('timeform', 'int'))
         wire = bpconv.finalize(obj)
     except Exception as err:
         out.fail('encode-raises:%s%s' % (type(err).__name__, sfx), 'repo cannot encode a well-formed bundle: %s: %s'
